@@ -462,7 +462,8 @@ class tenmat:
         -------
         :class:`numpy.ndarray`, float, int
         """
-        return self.data[item]
+        result = self.data[item]
+        return result.copy() if isinstance(result, np.ndarray) else result
 
     def __mul__(self, other):
         """
